@@ -85,6 +85,17 @@ def thisLine (lb : LB) : Option (Nat × Nat) := lineBounds lb.gs (cursorLine lb)
 
 def ordered (a b : Nat) : Nat × Nat := if a > b then (b, a) else (a, b)
 
+def isNlAtGs (gs : List Gr) (i : Nat) : Bool := match gs[i]? with | some g => isNl g | none => false
+
+/-- the grapheme at `i` ends a line: a terminator, or nothing there at all -/
+def endsLineAt (gs : List Gr) (i : Nat) : Bool := match gs[i]? with | none => true | some g => isNl g
+
+
+/-- `stop_before_terminator` (fix f9149ef): a forward motion that ends at the start of a later line, or runs
+into the end of the buffer, takes the text up to the end of the line before, not that line's terminator. -/
+def stopBeforeTerminator (gs : List Gr) (s e : Nat) : Nat × Nat :=
+  if e > s + 1 && isNlAtGs gs (e - 1) then (s, e - 1) else (s, e)
+
 /-- `range_from_motion` -/
 def rangeFromMotion (lb : LB) : MK → Option (Nat × Nat)
   | .blockRange _ => none
@@ -97,11 +108,13 @@ def rangeFromMotion (lb : LB) : MK → Option (Nat × Nat)
       if tl < cl then (lineBounds lb.gs tl).map (fun b => (b.1, e))
       else if tl > cl then (lineBounds lb.gs tl).map (fun b => (s, b.2))
       else some (s, e)
-  | .on p => some (ordered lb.cur p)
+  | .on p =>
+    if p > lb.cur then some (stopBeforeTerminator lb.gs (ordered lb.cur p).1 (ordered lb.cur p).2)
+    else some (ordered lb.cur p)
   | .onto p =>
-    let p' := min p lb.max
-    let p'' := if p' > lb.cur then min (p' + 1) lb.max else p'
-    some (ordered lb.cur p'')
+    if min p lb.max > lb.cur then
+      some (stopBeforeTerminator lb.gs (ordered lb.cur (min (min p lb.max + 1) lb.max)).1 (ordered lb.cur (min (min p lb.max + 1) lb.max)).2)
+    else some (ordered lb.cur (min p lb.max))
   | .line n => lineBounds lb.gs n
   | .lineRange a b =>
     match lineBounds lb.gs a, lineBounds lb.gs b with
@@ -140,11 +153,67 @@ def drainWindows : List (Nat × Nat) → List Gr → Except VErr (List Str × Li
       | .error e => .error e
       | .ok (ls, g2) => .ok (t :: ls, g2)
 
+inductive OpK where | delete | change | yank
+  deriving Repr, BEq, DecidableEq
+
+def OpK.drains : OpK → Bool | .yank => false | _ => true
+def OpK.isDelete : OpK → Bool | .delete => true | _ => false
+def OpK.isChange : OpK → Bool | .change => true | _ => false
+
+def isBlankGr (g : Gr) : Bool := g == [' '] || g == ['\t']
+def isBlankAt (gs : List Gr) (i : Nat) : Bool := match gs[i]? with | some g => isBlankGr g | none => false
+
+/-- `while line_start > 0 && is_blank(line_start - 1) { line_start -= 1 }` -/
+def blanksBack (gs : List Gr) : Nat → Nat
+  | 0 => 0
+  | i + 1 => if isBlankAt gs i then blanksBack gs i else i + 1
+
+/-- `while is_blank(line_end) { line_end += 1 }` (fuel = graphemes left) -/
+def blanksFwd (gs : List Gr) : Nat → Nat → Nat
+  | 0, i => i
+  | f + 1, i => if isBlankAt gs i then blanksFwd gs f (i + 1) else i
+
+def MK.linewise : MK → Bool
+  | .inclTarget _ _ _ => true
+  | .lineOffset _ => true
+  | _ => false
+
+def MK.forwardFrom (cur : Nat) : MK → Bool
+  | .on p => p > cur
+  | .onto p => p > cur
+  | _ => false
+
+/-- `'cc'` empties the line, it does not remove it: a linewise change leaves the last terminator. -/
+def changeEnd (op : OpK) (lw : Bool) (gs : List Gr) (s e : Nat) : Nat :=
+  if lw && op.isChange && e > s && isNlAtGs gs (e - 1) then e - 1 else e
+
+def promotable (gs : List Gr) (ls le : Nat) : Bool := (ls == 0 || isNlAtGs gs (ls - 1)) && endsLineAt gs le
+
+/-- Promotion of a delete to whole lines: blanks before the start up to the line start, blanks after the
+end and the terminator that follows them. -/
+def promoteLines (gs : List Gr) (s e : Nat) (lw : Bool) : Nat × Nat × Bool :=
+  if promotable gs (blanksBack gs s) (blanksFwd gs (gs.length - e + 1) e) then
+    (blanksBack gs s, min (blanksFwd gs (gs.length - e + 1) e + 1) gs.length, true)
+  else (s, e, lw)
+
+def spansLines (gs : List Gr) (s e : Nat) : Bool := (List.range (e - s)).any (fun k => isNlAtGs gs (s + k))
+
+/-- `operator_range` (fixes 0cdfd90, f9149ef): the span a delete, change or yank takes, and whether it is
+taken as whole lines. A forward delete over several lines that starts in the indent of its line and leaves
+only blanks at its end is promoted to whole lines. -/
+def operatorRange (op : OpK) (lb : LB) (mk : MK) : Option (Nat × Nat × Bool) :=
+  match rangeFromMotion lb mk with
+  | none => none
+  | some (s, e0) =>
+    if mk.forwardFrom lb.cur && op.isDelete && spansLines lb.gs s (changeEnd op mk.linewise lb.gs s e0) then
+      some (promoteLines lb.gs s (changeEnd op mk.linewise lb.gs s e0) mk.linewise)
+    else some (s, changeEnd op mk.linewise lb.gs s e0, mk.linewise)
+
 /-- `get_register_content`: register content and the graphemes left in the buffer. -/
-def getRegisterContent (drain : Bool) (lb : LB) (mk : MK) : Except VErr (RegContent × List Gr) :=
+def getRegisterContent (op : OpK) (lb : LB) (mk : MK) : Except VErr (RegContent × List Gr) :=
   match mk with
   | .blockRange ws =>
-    if drain then
+    if op.drains then
       -- windows are drained last-to-first and collected in that order
       (drainWindows ws.reverse lb.gs).map (fun r => (.block r.1, r.2))
     else .ok (.block (ws.map (fun w => sliceOr lb.gs w.1 w.2)), lb.gs)
@@ -152,20 +221,20 @@ def getRegisterContent (drain : Bool) (lb : LB) (mk : MK) : Except VErr (RegCont
     match lineBounds lb.gs n with
     | none => .ok (.empty, lb.gs)
     | some (s, e) =>
-      if drain then (drainGs lb.gs s e).map (fun r => (.line r.1, r.2))
+      if op.drains then (drainGs lb.gs s e).map (fun r => (.line r.1, r.2))
       else .ok (.line (sliceOr lb.gs s e), lb.gs)
   | .lineRange a b =>
     match lineBounds lb.gs a, lineBounds lb.gs b with
     | some x, some y =>
-      if drain then (drainGs lb.gs x.1 y.2).map (fun r => (.line r.1, r.2))
+      if op.drains then (drainGs lb.gs x.1 y.2).map (fun r => (.line r.1, r.2))
       else .ok (.line (sliceOr lb.gs x.1 y.2), lb.gs)
     | _, _ => .ok (.empty, lb.gs)
   | _ =>
-    match rangeFromMotion lb mk with
+    match operatorRange op lb mk with
     | none => .ok (.empty, lb.gs)
-    | some (s, e) =>
-      if drain then (drainGs lb.gs s e).map (fun r => (.span r.1, r.2))
-      else .ok (.span (sliceOr lb.gs s e), lb.gs)
+    | some (s, e, lw) =>
+      if op.drains then (drainGs lb.gs s e).map (fun r => (if lw then .line r.1 else .span r.1, r.2))
+      else .ok (if lw then .line (sliceOr lb.gs s e) else .span (sliceOr lb.gs s e), lb.gs)
 
 /-! ### Character-level operators -/
 
@@ -203,18 +272,22 @@ def isAsciiLetterGr (g : Gr) : Bool :=
   | [c] => isAsciiLower c || isAsciiUpper c
   | _ => false
 
-/-- `~` with a count: toggles letters from `pos` on, stops at the first non-letter, at the count, or
-when the cursor cannot advance (`ub` = the clamp's upper bound; the grapheme count never changes). -/
-def toggleInplaceGo (ub : Nat) : Nat → Nat → List Gr → List Gr
+/-- one step of `~`: an ASCII letter has its case switched, anything else is passed over -/
+def toggleAt (gs : List Gr) (pos : Nat) (g : Gr) : List Gr :=
+  if isAsciiLetterGr g then gs.set pos (caseGr .toggle g) else gs
+
+/-- `~` with a count (fix 6db7650): goes over `count` graphemes of the cursor line, switching the case of
+the ASCII letters among them; it stops at the count, on a line terminator, or when the next grapheme is a
+terminator or the end of the text. The grapheme count never changes. -/
+def toggleInplaceGo : Nat → Nat → List Gr → List Gr
   | 0, _, gs => gs
   | k + 1, pos, gs =>
     match gs[pos]? with
     | none => gs
     | some g =>
-      if isAsciiLetterGr g then
-        if k = 0 ∨ pos = ub then gs.set pos (caseGr .toggle g)
-        else toggleInplaceGo ub k (pos + 1) (gs.set pos (caseGr .toggle g))
-      else gs
+      if isNl g then gs
+      else if k = 0 || endsLineAt gs (pos + 1) then toggleAt gs pos g
+      else toggleInplaceGo k (pos + 1) (toggleAt gs pos g)
 
 /-- `replace_at(pos, c)` on graphemes: past the end pushes, a newline is pushed forward. -/
 def replaceAtGs (gs : List Gr) (pos : Nat) (c : Char) : List Gr :=
@@ -229,6 +302,16 @@ def replaceInplaceGo (excl : Bool) (c : Char) : Nat → Nat → List Gr → List
     if k = 0 ∨ pos = (if excl then (replaceAtGs gs pos c).length - 1 else (replaceAtGs gs pos c).length)
     then replaceAtGs gs pos c
     else replaceInplaceGo excl c k (pos + 1) (replaceAtGs gs pos c)
+
+/-- graphemes from `pos` to the end of its line (`left_on_line` in ReplaceCharInplace) -/
+def leftOnLine (gs : List Gr) : Nat → Nat → Nat
+  | 0, _ => 0
+  | f + 1, i => match gs[i]? with
+    | none => 0
+    | some g => if isNl g then 0 else leftOnLine gs f (i + 1) + 1
+
+/-- where a charwise `p`/`P` inserts -/
+def putIdx (lb : LB) (after : Bool) : Nat := if after && !(endsLineAt lb.gs lb.cur) then lb.cur + 1 else lb.cur
 
 /-- The verbs of C08 (those that act on a span of the text or on a register). -/
 inductive VerbK where
@@ -251,10 +334,12 @@ structure VOut where
 
 def execVerbText (v : VerbK) (mk : MK) (reg : RegName) (lb : LB) (regs : Regs) : Except VErr VOut :=
   match v with
-  | .delete | .change =>
-    (getRegisterContent true lb mk).map (fun r => ⟨r.2.flatten, writeReg regs reg r.1⟩)
+  | .delete =>
+    (getRegisterContent .delete lb mk).map (fun r => ⟨r.2.flatten, writeReg regs reg r.1⟩)
+  | .change =>
+    (getRegisterContent .change lb mk).map (fun r => ⟨r.2.flatten, writeReg regs reg r.1⟩)
   | .yank =>
-    (getRegisterContent false lb mk).map (fun r => ⟨lb.gs.flatten, writeReg regs reg r.1⟩)
+    (getRegisterContent .yank lb mk).map (fun r => ⟨lb.gs.flatten, writeReg regs reg r.1⟩)
   | .caseRange op =>
     match rangeFromMotion lb mk with
     | none => .ok ⟨lb.gs.flatten, regs⟩
@@ -274,9 +359,9 @@ def execVerbText (v : VerbK) (mk : MK) (reg : RegName) (lb : LB) (regs : Regs) :
     else
       match regs.get reg.name with
       | .span t =>
-        let ub := if lb.excl then lb.max - 1 else lb.max
-        let idx := if after then min (lb.cur + 1) ub else lb.cur
-        .ok ⟨(lb.gs.take idx).flatten ++ t ++ (lb.gs.drop idx).flatten, regs⟩
+        -- fix 67f7513: on an empty line or in an empty buffer there is nothing to put the text after;
+        -- an empty register changes nothing
+        .ok ⟨(lb.gs.take (putIdx lb after)).flatten ++ t ++ (lb.gs.drop (putIdx lb after)).flatten, regs⟩
       | _ => .error (.panic "putSpan: not a charwise register (not modelled here)")
   | .insertChar c =>
     .ok ⟨(lb.gs.take lb.cur).flatten ++ [c] ++ (lb.gs.drop lb.cur).flatten, regs⟩
@@ -288,8 +373,10 @@ def execVerbText (v : VerbK) (mk : MK) (reg : RegName) (lb : LB) (regs : Regs) :
       else .ok ⟨(lb.gs.take lb.cur).flatten ++ [c] ++ (lb.gs.drop (lb.cur + 1)).flatten, regs⟩
 
   | .toggleInplace n =>
-    .ok ⟨(toggleInplaceGo (if lb.excl then lb.max - 1 else lb.max) n lb.cur lb.gs).flatten, regs⟩
+    .ok ⟨(toggleInplaceGo n lb.cur lb.gs).flatten, regs⟩
   | .replaceInplace c n =>
-    .ok ⟨(replaceInplaceGo lb.excl c n lb.cur lb.gs).flatten, regs⟩
+    -- fix 6db7650: all `n` characters are on the cursor line, or nothing is replaced
+    if n > leftOnLine lb.gs (lb.gs.length - lb.cur) lb.cur then .ok ⟨lb.gs.flatten, regs⟩
+    else .ok ⟨(replaceInplaceGo lb.excl c n lb.cur lb.gs).flatten, regs⟩
 
 end Vicut
